@@ -316,7 +316,7 @@ impl Node {
         out.push(format!("G idname {}", ids.iter().map(|(i, n)| format!("{}={}", i, escw(n))).collect::<Vec<_>>().join(",")));
         out.push(format!("G valid {}", if self.dbs.is_oplog_valid.load(Ordering::SeqCst) { 1 } else { 0 }));
         let flag = std::fs::read(format!("{}/is-oplog.valid", self.dir)).ok();
-        out.push(format!("G flagfile {}", match flag { Some(b) if !b.is_empty() => b[0].to_string(), _ => "-".to_string() }));
+        out.push(format!("G flagfile {}", match flag { Some(b) if !b.is_empty() => b.iter().map(|x| x.to_string()).collect::<Vec<_>>().join(","), _ => "-".to_string() }));
         let kf = format!("{}/keys-nun.keys", self.dir);
         if std::path::Path::new(&kf).exists() {
             let m = nundb::disk_ops::load_keys_map_from_disk();
